@@ -79,7 +79,9 @@ Fixpoint forced_A (fuel : nat) (this : path) (incs : list path) (p : plat) : res
       let '(p1, res) := find_include_A (n, this, false) p in
       match res with
       | None => forced_A fuel this r p1
-      | Some f => match run_file_A fuel f p1 with Ok p2 => forced_A fuel this r p2 | Err e => Err e end
+      | Some f =>
+          if mem_path f (once p1) then forced_A fuel this r p1            (* process_include *)
+          else match run_file_A fuel f p1 with Ok p2 => forced_A fuel this r p2 | Err e => Err e end
       end
   end.
 
